@@ -43,6 +43,7 @@ def expectedGuards : List String :=
    "objectGoReflect._put: detaches the cached field wrapper",
    "objectGoReflect._put: re-attaches the wrapper when the conversion fails",
    "objectGoReflect._put: drops the cache entry after a successful store",
+   "copyReflectValueWrapper: re-points the wrapper through setReflectValue",
    "objectGoArrayReflect.swap: moves the cached wrappers with the elements",
    "baseObject.export: caches before exporting the children",
    "arrayObject.export: caches before exporting the children"]
